@@ -30,7 +30,7 @@ def plan(tier):
             extra_cov={"config_cells_visited": len(agg.cells)})
 
     return {
-        "n_runs": _scale(4000 if quick else 200000),
+        "n_runs": _scale(8000 if quick else 200000),
         "jit_modes": [False] if quick else [False, True],
         "params": params,
         "watchdog": 120,
